@@ -445,5 +445,24 @@ theorem refReset_in_ket0 {n : Nat} (ρ : DMat n) (q : Nat) (hq : q < n) :
   rw [mul_add]
   simp only [← Matrix.mul_assoc, proj_Zq_idem]
 
+/-- **after a measure-and-reset the control is in `|0⟩`** in the state of the stabilizer backend's tableau (hence in the
+    density-matrix backend's matrix): `|0⟩⟨0|_c ρ(s') = ρ(s')`, i.e. `+Z_c` stabilizes the state — for every input state,
+    setting and outcome, also when control and target coincide -/
+theorem mcr_control_in_ket0 (np n : Nat) (d : Det) (s s' : RunState) (c t : QReg) (creg : Nat) (h : RunInv n s)
+    (hs : stepOp np n d s (.mcr c t creg) = some s') :
+    proj n (Zq (qIndex np c) false) * tabRho n s'.t = tabRho n s'.t := by
+  have hq : qIndex np c < n ∧ qIndex np t < n := by
+    simp only [stepOp] at hs
+    split at hs
+    · next hq => exact hq
+    · cases hs
+  have href := refStep_stab np n d s s' (.mcr c t creg) trivial h hs
+  simp only [refStep, if_pos hq] at href
+  injection href with href
+  have hρ := congrArg RState.ρ href
+  simp only [rstate] at hρ
+  rw [← hρ]
+  exact refReset_in_ket0 _ _ hq.1
+
 end DMRef
 end Graphiq
